@@ -671,8 +671,8 @@ fn process_request_obj(request: &Request, dbs: &Arc<Databases>, client: &mut Cli
                                 &dbs,
                             )
                         } else {
-                            // A resolve that arrives from the primary was applied there already and its
-                            // writes are replicated on their own: sending it back would bounce forever
+                            // A resolve that arrives from the primary was applied there already:
+                            // sending it back would bounce forever
                             if !client.is_primary() {
                                 send_message_to_primary(
                                     get_resolve_message(
@@ -684,8 +684,19 @@ fn process_request_obj(request: &Request, dbs: &Arc<Databases>, client: &mut Cli
                                     ),
                                     dbs,
                                 );
+                                Response::Ok {}
+                            } else {
+                                // The conflict registry key is replicated on its own, the resolved
+                                // value of the key only travels with this command
+                                db.apply_resolution(Change {
+                                    key: key.clone(),
+                                    value: value.clone(),
+                                    version,
+                                    opp_id,
+                                    resolve_conflict: true,
+                                });
+                                Response::Ok {}
                             }
-                            Response::Ok {}
                         }
                     },
                     &PermissionKind::Read,
